@@ -171,6 +171,15 @@ def AC.loopActive (s : AC) : Bool := !s.exhausted || !s.tasks.isEmpty || !s.runn
 def AC.hasCapacity (s : AC) (w : Nat) : Bool :=
   s.running.all fun r => r.worker != w || (match r.st with | .flying _ => false | _ => true)
 
+/-- orchestrate.py:492-496: "Ensure failed tasks are retried before new tasks are submitted" - a new
+task is drawn from the iterator only when the retry stack is empty -/
+def AC.draw (s : AC) : AC :=
+  if s.tasks.isEmpty && !s.exhausted then
+    match s.pending with
+    | [] => { s with exhausted := true }
+    | t :: p => { s with tasks := [t], pending := p }
+  else s
+
 def AC.finish (c : ACfg) (s : AC) (o : Outcome) (always : Bool) : AC :=
   { s with outcome := some o, ws := if always || c.releaseOnRaise then releaseAll s.ws else s.ws }
 
@@ -183,19 +192,11 @@ def acStep (c : ACfg) (s : AC) : ALabel → Option AC
     match s.outcome, s.ws[w]? with
     | none, some x =>
       if x.acquired && x.alive && s.hasCapacity w && (!s.tasks.isEmpty || !s.exhausted) then
-        -- "Ensure failed tasks are retried before new tasks are submitted."
-        let s1 : AC :=
-          if s.tasks.isEmpty && !s.exhausted then
-            match s.pending with
-            | [] => { s with exhausted := true }
-            | t :: p => { s with tasks := [t], pending := p }
-          else s
-        match s1.tasks with
-        | [] => some s1
+        match s.draw.tasks with
+        | [] => some s.draw
         | t :: rest =>
-          let fw := issue c.env s1.ws w
-          some { s1 with tasks := rest, ws := fw.2,
-                         running := s1.running ++ [{ task := t, worker := w, st := .flying fw.1 }] }
+          some { s.draw with tasks := rest, ws := (issue c.env s.ws w).2,
+                             running := s.running ++ [{ task := t, worker := w, st := .flying (issue c.env s.ws w).1 }] }
       else none
     | _, _ => none
   | .complete i =>
@@ -375,6 +376,14 @@ def IT.broken (c : ICfg) (s : IT) : Bool := !s.failed.isEmpty || c.threshold < s
 
 def IT.freeWorker (s : IT) (w : Nat) : Bool := s.running.all fun r => r.worker != w
 
+/-- courier_worker.py:462-467 -/
+def IT.draw (s : IT) : IT :=
+  if s.tasks.isEmpty && !s.exhausted then
+    match s.pending with
+    | [] => { s with exhausted := true }
+    | t :: p => { s with tasks := [t], pending := p }
+  else s
+
 def putStates (q : List (Option Nat)) : Option Nat → List (Option Nat)
   | none => q
   | some sh => q ++ [some sh]
@@ -384,15 +393,9 @@ def itStep (c : ICfg) (s : IT) : ILabel → Option IT
     match s.outcome with
     | none =>
       if aliveAt s.ws w && s.freeWorker w && !s.broken c && (!s.tasks.isEmpty || !s.exhausted) then
-        let s1 : IT :=
-          if s.tasks.isEmpty && !s.exhausted then
-            match s.pending with
-            | [] => { s with exhausted := true }
-            | t :: p => { s with tasks := [t], pending := p }
-          else s
-        match s1.tasks with
-        | [] => some s1
-        | t :: rest => some { s1 with tasks := rest, running := s1.running ++ [{ shard := t, worker := w }] }
+        match s.draw.tasks with
+        | [] => some s.draw
+        | t :: rest => some { s.draw with tasks := rest, running := s.running ++ [{ shard := t, worker := w }] }
       else none
     | some _ => none
   | .co i k marker =>
